@@ -302,7 +302,8 @@ UNITS.append(
         module=M,
         func="lpsd_plan",
         props=["C02", "C03", "C04"],
-        setup=args_setup(keys=("N", "fs", "olap", "Jdes", "Kdes")),
+        # callers (plan()) pass bmin / Lmin too: whatever they are, the plan is the LTF plan for bmin = 1, Lmin = 1
+        setup=args_setup(),
         ghosts={**{k: v for k, v in ARG_GHOSTS.items() if k not in ("bmin", "Lmin")}, "bmin": ("real", "1.0"), "Lmin": ("int", "1")},
         requires=[c for c in ADMISSIBLE if "bmin" not in c and "Lmin" not in c],
         ensures={**PLAN_POST, **BIN_C02, **BIN_C03, **BIN_C04_POSTS},
